@@ -122,3 +122,72 @@ func c05MultiScenario() *vs.Scenario {
 	return &vs.Scenario{Name: c05MultiName, Body: c05MultiBody(), LeakIsViolation: true, LeakKey: "goroutine-left-behind",
 		Opt: vs.Options{Horizon: 70 * time.Second, IdleStep: 97 * time.Millisecond, MaxSteps: 20000}}
 }
+
+// Second multi-peer scenario: the abandoned fd waiter ALONE. Q's dial holds the only fd token and hangs; P's job takes
+// P's per-peer token and queues for the fd token; P's only caller is cancelled. "Once all callers have returned no
+// attempt, token or worker remains": once P's caller has returned and everything that follows from it has run
+// (quiescence), nothing of P may be left in the limiter - although nobody else's dial has finished meanwhile.
+const c05Multi2Name = "two peers, fd=1: the other peer's dial hangs on the fd token, this peer's only caller is cancelled while its job waits for the token"
+
+func c05Multi2Body() func(x *vs.Exec) {
+	return func(x *vs.Exec) {
+		s := x.S
+		env := fxNewEnv(1, 8)
+		peers := map[string]string{"Q": "/ip4/1.2.3.7/tcp/4101", "P": "/ip4/1.2.3.8/tcp/4102"}
+		for _, n := range []string{"Q", "P"} {
+			env.PS.AddAddr(fxID(n).ID, ma.StringCast(peers[n]), peerstore.PermanentAddrTTL)
+		}
+		P := fxID("P").ID
+		ctxP, cancelP := context.WithCancel(context.Background())
+		bg, cancelAll := context.WithCancel(context.Background())
+		defer cancelAll()
+		pReturned := make(chan struct{})
+		var retQ, retP int
+		s.GoPrio("callerQ", 0, func() {
+			env.Swarm.DialPeer(bg, fxID("Q").ID)
+			retQ++
+		})
+		s.GoPrio("callerP", 1, func() {
+			env.Swarm.DialPeer(ctxP, P)
+			retP++
+			vs.Close(pReturned)
+		})
+		s.GoPrio("cancelP", 2, func() { vs.Yield(); cancelP() })
+		s.GoPrio("probe", 3, func() {
+			vs.Recv(-9, pReturned)
+			vs.SyncWait() // P's worker has exited and cleaned up; Q's dial still hangs
+			l := env.Swarm.limiter
+			l.lk.Lock()
+			nFd := 0
+			for _, j := range l.waitingOnFd {
+				if j.peer == P {
+					nFd++
+				}
+			}
+			act, nPeer := l.activePerPeer[P], len(l.waitingOnPeerLimit[P])
+			l.lk.Unlock()
+			if !s.Free && (act != 0 || nFd != 0 || nPeer != 0) {
+				x.Fail("limiter-token-left-behind", "every caller of P has returned and everything is quiescent (the other peer's dial still holds the fd token), but the limiter still has for P: per-peer tokens=%d, jobs waiting for an fd token=%d, jobs waiting for a per-peer token=%d", act, nFd, nPeer)
+			}
+			cancelAll()
+		})
+		ok := s.Run()
+		if !ok && s.Deadlock != "" {
+			x.Fail("dial-never-returns", "threads blocked forever: %s", s.Deadlock)
+		}
+		if ok && (retQ != 1 || retP != 1) {
+			x.Fail("caller-returned-not-once", "callerQ returned %d times, callerP %d times", retQ, retP)
+		}
+		x.Outcome = fmt.Sprintf("dials=%d", len(env.AllDials()))
+		s.Go("teardown", func() { env.Close() })
+		if !s.Drain() && s.Deadlock != "" {
+			x.Fail("deadlock-in-close", "Swarm.Close did not finish: %s", s.Deadlock)
+		}
+	}
+}
+
+func c05Multi2Scenario() *vs.Scenario {
+	return &vs.Scenario{Name: c05Multi2Name, Body: c05Multi2Body(), LeakIsViolation: true, LeakKey: "goroutine-left-behind",
+		Opt: vs.Options{Horizon: 70 * time.Second, IdleStep: 97 * time.Millisecond, MaxSteps: 20000}}
+}
+
